@@ -7,6 +7,7 @@ import RedisGoModel.Driver.Apply
 import RedisGoModel.Driver.Wal
 import RedisGoModel.Driver.Codec
 import RedisGoModel.Driver.Rendezvous
+import RedisGoModel.Driver.Ready
 /-! Correspondence driver: reads one observed operation per line on stdin, recomputes it with the model, prints
     `MISMATCH <lineno> <detail>` for every disagreement and a final `SUMMARY` line.  Each engine recognises its own line tags. -/
 open Driver
@@ -39,7 +40,7 @@ def judge (st : St) (fs : List String) : St × Option (Except String Bool) :=
   let (rz', v) := rendezvousLine st.rz fs
   let st := { st with rz := rz' }
   if v.isSome then (st, v) else
-  (st, ((codecLine fs).orElse fun _ => globLine fs).orElse fun _ => parserLine fs)
+  (st, (((readyLine fs).orElse fun _ => codecLine fs).orElse fun _ => globLine fs).orElse fun _ => parserLine fs)
 
 partial def loop (h : IO.FS.Stream) (st : St) : IO St := do
   let line ← h.getLine
